@@ -200,8 +200,20 @@ func checkC16(p *Program, r *Report) {
 								if eb, ok := sl.Elem().Underlying().(*types.Basic); ok && eb.Kind() == types.Uint8 {
 									// cached serialisation: a constructor has not serialised anything; the only bytes it may
 									// cache are the ones its caller passed as the serialisation (trusted, see Explain)
-									if paramIndex(fn, st.Val) < 0 {
+									val, consumed := st.Val, false
+									if sl, ok := val.(*ssa.Slice); ok && paramIndex(fn, sl.X) >= 0 && sl.Low == nil && sl.High != nil {
+										if rd := readerOver(fn, sl.X); rd != nil && lenMinusRemaining(sl.High, sl.X, rd) {
+											val, consumed = sl.X, true
+										}
+									}
+									if paramIndex(fn, val) < 0 {
 										okInit, howInit = false, "a constructor caches bytes that are neither nil nor its caller's serialisation argument: "+exprString(st.Val)+" (for example what a buffered reader pulled from the stream, which may extend past the block)"
+									} else if rd := readerOver(fn, val); rd != nil && !consumed && !nothingRemains(b, rd) {
+										// round 5 (defect F14): the constructor itself decodes the message from these bytes; what it may
+										// cache as "the serialisation" is the part the decoder consumed
+										okInit, howInit = false, "the constructor decodes the message from "+exprString(val)+" and caches the whole argument: bytes behind the end of the message (trailing junk) become part of Bytes(), which then differs from a fresh serialisation"
+									} else if consumed {
+										howInit = "constructor: the caller's bytes up to where the decoder stopped"
 									} else {
 										howInit = "constructor: the caller's serialisation argument, as is"
 									}
@@ -721,4 +733,72 @@ func handedOutHashRule(p *Program, r *Report, rule string) int {
 		}
 	}
 	return n
+}
+
+// readerOver: the *bytes.Reader / *bytes.Buffer that fn builds over the byte slice v (nil if none).
+func readerOver(fn *ssa.Function, v ssa.Value) *ssa.Call {
+	for _, b := range fn.Blocks {
+		for _, in := range b.Instrs {
+			c, ok := in.(*ssa.Call)
+			if !ok || len(c.Call.Args) != 1 || c.Call.Args[0] != v {
+				continue
+			}
+			if staticCalleeIs(&c.Call, "bytes.NewReader") || staticCalleeIs(&c.Call, "bytes.NewBuffer") {
+				return c
+			}
+		}
+	}
+	return nil
+}
+
+func remainingOf(v ssa.Value, rd *ssa.Call) bool {
+	c, ok := v.(*ssa.Call)
+	if !ok || len(c.Call.Args) != 1 || c.Call.Args[0] != ssa.Value(rd) {
+		return false
+	}
+	return staticCalleeIs(&c.Call, "(*bytes.Reader).Len") || staticCalleeIs(&c.Call, "(*bytes.Buffer).Len")
+}
+
+// lenMinusRemaining: hi == len(v) − rd.Len()
+func lenMinusRemaining(hi ssa.Value, v ssa.Value, rd *ssa.Call) bool {
+	bo, ok := hi.(*ssa.BinOp)
+	if !ok || bo.Op != token.SUB {
+		return false
+	}
+	ln, ok := bo.X.(*ssa.Call)
+	if !ok || !isBuiltin(&ln.Call, "len") || ln.Call.Args[0] != v {
+		return false
+	}
+	return remainingOf(bo.Y, rd)
+}
+
+// nothingRemains: block b is reached only where rd.Len() == 0 held
+func nothingRemains(b *ssa.BasicBlock, rd *ssa.Call) bool {
+	for _, cd := range DomConds(b) {
+		bo, truth, ok := condBinOp(cd)
+		if !ok {
+			continue
+		}
+		var other ssa.Value
+		if remainingOf(bo.X, rd) {
+			other = bo.Y
+		} else if remainingOf(bo.Y, rd) {
+			other = bo.X
+		} else {
+			continue
+		}
+		k, isK := constInt(other)
+		if !isK {
+			continue
+		}
+		switch {
+		case bo.Op == token.EQL && truth && k == 0, bo.Op == token.NEQ && !truth && k == 0:
+			return true
+		case bo.Op == token.GTR && !truth && k == 0 && remainingOf(bo.X, rd): // !(Len() > 0)
+			return true
+		case bo.Op == token.LSS && !truth && k == 0 && remainingOf(bo.Y, rd): // !(0 < Len())
+			return true
+		}
+	}
+	return false
 }
